@@ -1,6 +1,7 @@
 SPECIFICATION Spec
 CONSTANTS
   MaxLen = 14
+  Randomised = TRUE
 INVARIANT Repeatable
 INVARIANT Emit
 PROPERTY ArgumentsUnchanged
